@@ -103,6 +103,31 @@ def m_string_push(ex, st, callee, args, dest_ty):
     yield st, UNIT
 
 
+def _hex_digit(d, upper=False):
+    return z3.If(d < 10, 48 + d, (55 if upper else 87) + d)
+
+
+def m_char_escape(ex, st, callee, args, dest_ty):
+    """char::escape_unicode: the characters \\ u { <hex digits of the scalar, lower case, no leading zeros> } ; escape_default / escape_debug are not modelled"""
+    c = args[0].e
+    for k in range(1, 7):
+        lo, hi = (16 ** (k - 1) if k > 1 else 0), 16 ** k
+        for st2 in ex.branch(st, z3.And(c >= lo, c < hi)):
+            digs = [Sc(z3.simplify(_hex_digit((c / (16 ** j)) % 16)), "char") for j in range(k - 1, -1, -1)]
+            chars = [Sc(z3.IntVal(ord(x)), "char") for x in "\\u{"] + digs + [Sc(z3.IntVal(ord("}")), "char")]
+            yield st2, Opaque("CharsOf", info=chars)
+
+
+def m_string_extend_chars(ex, st, callee, args, dest_ty):
+    it = args[1]
+    if not (isinstance(it, Opaque) and it.sort == "CharsOf"):
+        raise MirUnsupported("String::extend from %r" % (it,))
+    base = _base(ex, st, args[0])
+    items = _seq_items(ex, st, ex.read(st, base.cell, base.projs))
+    ex.write(st, base.cell, base.projs, StrV(None, seq=VecV(z3.IntVal(len(items) + len(it.info)), tuple(items + list(it.info)), "char")))
+    yield st, UNIT
+
+
 def m_string_push_str(ex, st, callee, args, dest_ty):
     base = _base(ex, st, args[0])
     s = ex.read(st, base.cell, base.projs)
@@ -135,6 +160,8 @@ JSON_MODELS = [
     (R(r"^(std::string::)?String::(new|with_capacity)$"), m_string_new),
     (R(r"^(std::string::)?String::push$"), m_string_push),
     (R(r"^(std::string::)?String::push_str$"), m_string_push_str),
+    (R(r"^char::methods::<impl char>::escape_unicode$"), m_char_escape),
+    (R(r"^<(std::string::)?String as Extend<char>>::extend::<.*>$"), m_string_extend_chars),
     (R(r"^<Chars<'_> as Iterator>::next$"), m_chars_next),
     (R(r"^<Chars<'_> as IntoIterator>::into_iter$"), lambda ex, st, c, a, d: iter([(st, a[0])])),
     (R(r"^<(std::string::)?String as Deref>::deref$|^(std::string::)?String::as_str$"), m_str_deref),
